@@ -112,11 +112,21 @@ def sequences(syms, last, maxlen):
                 yield seq + (tail,)
 
 
-def level1(tier):
+def core24():
+    return core16() + [('opt', 'u32'), ('fixed', 'u16', 3), ('limited', 'u64', 3), ('dynamic', 'u32'), ('ext', 'u16', 'u8'),
+                       ('opt', 'E'), ('limited', 'bytes', 3), ('fixed', 'u8', 1)]
+
+
+def level1(tier, cpp=False):
     syms, last = sigma_L()
     reg = dict(BASE_HELPERS)
     seen = set()
-    if tier == 'thorough':
+    if tier == 'thorough' and cpp:
+        # compiled universes: every sequence <= 2 over the full alphabet, length 3 over a 24-symbol core
+        core = core24()
+        corelast = [('greedy', 'u8'), ('greedy', 'u16'), ('greedy', 'u64'), ('greedy', 'bytes'), ('greedy', 'E')]
+        gens = [sequences(syms, last, 2), (s for s in sequences(core, corelast, 3) if len(s) == 3)]
+    elif tier == 'thorough':
         gens = [sequences(syms, last, 3)]
     else:
         core = core16()
@@ -149,6 +159,16 @@ def codec_cells():
         for f in forms:
             out.append(mk_state('struct', (f,), reg))
             out.append(mk_state('struct', (('plain', 'u8'), f), reg))
+    # bytes in every form, and every sizer type (signed ones included) for bytes and arrays,
+    # alone / after a u8 / followed by a wider field
+    extra = [('fixed', 'bytes', 2), ('limited', 'bytes', 2), ('dynamic', 'bytes'), ('greedy', 'bytes')]
+    for sz in ('u8', 'i8', 'u16', 'i16', 'i32', 'u64', 'i64'):
+        extra += [('ext', 'bytes', sz), ('ext', 'u16', sz)]
+    for f in extra:
+        out.append(mk_state('struct', (f,), reg))
+        out.append(mk_state('struct', (('plain', 'u8'), f), reg))
+        if f[0] != 'greedy':
+            out.append(mk_state('struct', (f, ('plain', 'u32')), reg))
     return out
 
 
@@ -308,8 +328,9 @@ def level2(tier, seed=0, coarse=False):
                 seqs.append((('plain', 'u64'), c))
                 seqs.append((('plain', 'u32'), c))
             if tier == 'thorough':
-                for a in SPACERS:
-                    for b in SPACERS:
+                tri = SPACERS if not coarse else SPACERS_COARSE + [('plain', 'u64')]
+                for a in tri:
+                    for b in tri:
                         seqs.append((a, b, c))
                         if c in mid:
                             seqs.append((a, c, b))
@@ -400,7 +421,7 @@ def all_states(tier, seed=0, levels=(1, 2, 3), cells=True, coarse=False):
     if cells:
         gens.append(codec_cells())
     if 1 in levels:
-        gens.append(level1(tier))
+        gens.append(level1(tier, cpp=coarse))
     if 2 in levels:
         gens.append(level2(tier, seed, coarse))
     if 3 in levels:
